@@ -358,6 +358,13 @@ fn attempt(
     res.map_err(|e| (e, count))?;
     let time = parsed.to_naive_time();
     let date = parsed.to_naive_date();
+    // Only absent fields may be filled in from the current time. Fields that are present
+    // but invalid (Feb 30, minute 60, a weekday that does not match the date) are errors.
+    for err in [time.as_ref().err(), date.as_ref().err()].iter().flatten() {
+        if err.kind() != chrono::format::ParseErrorKind::NotEnough {
+            return Err(("Failed to construct a useful datetime".to_string(), count));
+        }
+    }
     if let Some(tz) = tz {
         match (time, date) {
             (Ok(time), Ok(date)) => tz
